@@ -124,7 +124,8 @@ def UnionOK (s : SchemaD) (t : TypeD) : Prop :=
 /-- enum types: at least one value, well-formed names, no `None` internal value. NOT part of the rule, as in the code:
     uniqueness of the value names - `validate_enum_values` does not test it; `EnumType._set_values` raises
     `ValueError("Duplicate enum value ...")` at CONSTRUCTION, so a live schema never holds a duplicate (the dump of a live
-    schema has unique value names by construction; the model neither asks nor uses it). -/
+    schema has unique value names by construction; the model neither asks nor uses it). Named clause:
+    `Props.C13.ConstructionInvariants` / `ValidSchemaSpec` / `enum_uniqueness_not_implemented` (Props/C13_clauses.lean). -/
 def EnumOK (t : TypeD) : Prop :=
   t.values ≠ [] ∧ ∀ v ∈ t.values, ValidName v.name ∧ isNone v.value = false
 
@@ -154,7 +155,8 @@ def DirectivesOK (s : SchemaD) : Prop :=
 /-- the schema satisfies every IMPLEMENTED type-system rule. Uniqueness of TYPE names and of DIRECTIVE names is not
     among them, as in the code: `schema.types` and `schema.directives` are dicts keyed by name (a second definition of
     a name replaces or is refused at construction: `Schema.__init__` / `build_schema`, C11), `validate_schema` has no
-    such test; theorems that need unique type names take it as a hypothesis (`perm_types`, `perm_deep`: `Nodup`). -/
+    such test; theorems that need unique type names take it as a hypothesis (`perm_types`, `perm_deep`: `Nodup`); the
+    clauses are named in Props/C13_clauses.lean (`ConstructionInvariants`, `validate_iff_spec`). -/
 def ValidSchema (s : SchemaD) (rv : Bool := true) : Prop :=
   RootsOK s ∧ (∀ t ∈ s.types, TypeOK s rv t) ∧ DirectivesOK s
 
